@@ -8,6 +8,7 @@ import (
 	"go/constant"
 	"go/token"
 	"go/types"
+	"os"
 	"sort"
 	"strings"
 
@@ -102,12 +103,82 @@ func journalPos(v ssa.Value, elems []ssa.Value) int {
 	return -1
 }
 
+// carrierField: v reads field f of a value of an unexported named struct type of the module — the record in which the
+// phases of an operation (prepare, journal, apply) hand its arguments on: "T.f". Two reads of the same field of such a
+// record are the same argument.
+func carrierField(v ssa.Value) string {
+	var t types.Type
+	idx := -1
+	switch x := v.(type) {
+	case *ssa.Field:
+		t, idx = x.X.Type(), x.Field
+	case *ssa.UnOp:
+		if fa, ok := x.X.(*ssa.FieldAddr); ok && x.Op == token.MUL {
+			if pt, ok := fa.X.Type().Underlying().(*types.Pointer); ok {
+				t, idx = pt.Elem(), fa.Field
+			}
+		}
+	}
+	if t == nil {
+		return ""
+	}
+	nt, ok := t.(*types.Named)
+	if !ok || nt.Obj().Exported() || nt.Obj().Pkg() == nil || !strings.HasPrefix(nt.Obj().Pkg().Path(), modPath+"/") {
+		return ""
+	}
+	st, ok := nt.Underlying().(*types.Struct)
+	if !ok || idx < 0 || idx >= st.NumFields() {
+		return ""
+	}
+	return nt.Obj().Name() + "." + st.Field(idx).Name()
+}
+
+// carriesCaptured: e carries parameter p through the cell a captured parameter lives in.
+func carriesCaptured(e ssa.Value, p *ssa.Parameter) bool {
+	seen := map[ssa.Value]bool{}
+	var rec func(v ssa.Value, depth int) bool
+	rec = func(v ssa.Value, depth int) bool {
+		if v == nil || seen[v] || depth > 8 {
+			return false
+		}
+		seen[v] = true
+		if capturedParam(v) == p {
+			return true
+		}
+		switch x := v.(type) {
+		case *ssa.Convert:
+			return rec(x.X, depth+1)
+		case *ssa.ChangeType:
+			return rec(x.X, depth+1)
+		case *ssa.Call:
+			if o := calleeObj(&x.Call); o != nil && o.Pkg() != nil && o.Pkg().Path() == "strconv" {
+				for _, a := range x.Call.Args {
+					if rec(a, depth+1) {
+						return true
+					}
+				}
+			}
+		case *ssa.Phi:
+			for _, ed := range x.Edges {
+				if rec(ed, depth+1) {
+					return true
+				}
+			}
+		}
+		return false
+	}
+	return rec(e, 0)
+}
+
 func carries(e, v ssa.Value, depth int) bool {
 	if depth > 5 || e == nil {
 		return false
 	}
 	if e == v || sameValue(e, v) {
 		return true
+	}
+	if ke := carrierField(e); ke != "" && ke == carrierField(v) {
+		return true // the same field of the operation record that travels between the phases of the operation
 	}
 	switch x := e.(type) {
 	case *ssa.Convert:
@@ -215,9 +286,17 @@ func ruleCDC9(w *World, r *Report) {
 			continue
 		}
 		fn := w.SSAFunc(lf.Obj)
+		phases := append([]*ssa.Function{fn}, w.extractedHelpers(fn)...) // (journal and apply may be phase functions of their own)
+		findAll := func(p func(ssa.Instruction) bool) []ssa.Instruction {
+			var out []ssa.Instruction
+			for _, f := range phases {
+				out = append(out, findInstrs(f, p)...)
+			}
+			return out
+		}
 		// the journal command of this op
 		var elems []ssa.Value
-		for _, in := range findInstrs(fn, callsTo(fc)) {
+		for _, in := range findAll(callsTo(fc)) {
 			c := in.(*ssa.Call)
 			if nm, _ := constString(c.Call.Args[0]); nm == sp.cmd {
 				elems, _ = variadicElems(c.Call.Args[1])
@@ -230,7 +309,7 @@ func ruleCDC9(w *World, r *Report) {
 		// argument positions that the live side cannot express as data flow (a bool turned into
 		// "true"/"false" by a branch) are masked on both sides
 		masked := map[int]bool{}
-		for _, in := range findInstrs(fn, callsTo(sp.sink)) {
+		for _, in := range findAll(callsTo(sp.sink)) {
 			args := in.(*ssa.Call).Call.Args[1:]
 			for i := 0; i < sp.nArg && i < len(args); i++ {
 				if b, ok := args[i].Type().Underlying().(*types.Basic); ok && b.Kind() == types.Bool {
@@ -251,7 +330,7 @@ func ruleCDC9(w *World, r *Report) {
 			return "(" + strings.Join(t, ",") + ")"
 		}
 		var live []string
-		for _, in := range findInstrs(fn, callsTo(sp.sink)) {
+		for _, in := range findAll(callsTo(sp.sink)) {
 			live = append(live, tuple(in.(*ssa.Call), func(v ssa.Value) int { return journalPos(v, elems) }))
 		}
 		// replay side: calls of the sink whose first arg derives from cmd.Args and that sit in the arm of sp.cmd:
@@ -305,6 +384,71 @@ func ruleCDC9(w *World, r *Report) {
 		}
 		found, wit := pathQuery{fn: f, target: isReturn, avoid: isGlink}.find(entryPos(f))
 		r.Cond(!found, "CDC-9", "RewriteAOF:every-edge-re-emitted", w.Pos(f.Pos()), "the edge callback always reaches the GLINK emission", "the compaction's edge callback can return without emitting GLINK for the edge it was given (an early return on some property of the edge or of its namespace): compaction replaces the log and removes the snapshot, so every edge skipped here is lost at the next restart", w.witness(wit)...)
+	}
+	// each re-emitted record carries ITS time: the GLINK the time the version was created, the GUNLINK the time it was
+	// ended. The iterator hands both to the callback; which parameter is which is read off the iterator's own call.
+	{
+		rfn := w.SSAFunc(rw.Obj)
+		nT := 0
+		for _, in := range findInstrs(rfn, func(in ssa.Instruction) bool { _, isC := in.(*ssa.Call); return isC }) {
+			c := in.(*ssa.Call)
+			g := c.Call.StaticCallee()
+			if g == nil || !inModule(g) || len(g.Blocks) == 0 {
+				continue
+			}
+			for ai, a := range c.Call.Args {
+				mc, isMC := a.(*ssa.MakeClosure)
+				if !isMC {
+					continue
+				}
+				cb, _ := mc.Fn.(*ssa.Function)
+				if cb == nil || ai >= len(g.Params) {
+					continue
+				}
+				// the roles of the callback's parameters
+				role := map[int]string{}
+				for _, gf := range append([]*ssa.Function{g}, closuresOf(g)...) {
+					for _, gin := range findInstrs(gf, func(x ssa.Instruction) bool { _, isC := x.(*ssa.Call); return isC }) {
+						gc := gin.(*ssa.Call)
+						if gc.Call.IsInvoke() || capturedParam(gc.Call.Value) != g.Params[ai] {
+							continue
+						}
+						for j, ga := range gc.Call.Args {
+							if f, ok := recordField(ga); ok && (f == "CreatedAt" || f == "DeletedAt") {
+								role[j] = f
+							}
+						}
+					}
+				}
+				if len(role) < 2 {
+					continue
+				}
+				for _, fin := range findInstrs(cb, callsTo(fc)) {
+					fcall := fin.(*ssa.Call)
+					nm, _ := constString(fcall.Call.Args[0])
+					want := map[string]string{"GLINK": "CreatedAt", "GUNLINK": "DeletedAt"}[nm]
+					if want == "" {
+						continue
+					}
+					elems, spread := variadicElems(fcall.Call.Args[1])
+					if spread || len(elems) == 0 {
+						continue
+					}
+					last := elems[len(elems)-1]
+					got := ""
+					for j, f := range role {
+						if j < len(cb.Params) && (carries(last, cb.Params[j], 0) || carriesCaptured(last, cb.Params[j])) {
+							got = f
+						}
+					}
+					nT++
+					r.Cond(got == want, "CDC-9", "RewriteAOF:"+nm+":carries-the-time-the-version-was-"+map[string]string{"CreatedAt": "created", "DeletedAt": "ended"}[want], w.Pos(fcall.Pos()), "the record's time argument is the edge's "+want, fmt.Sprintf("the compaction writes the %s record of a stored edge version with %s as its time (expected: the version's %s): after the next restart the version ends at the wrong moment — an unlink dated at the link's own time makes the edge invisible to every as-of query of the interval it existed in, and the replayed record is no longer recognised as already applied", nm, map[bool]string{true: "a value that is not the version's " + want, false: "the version's " + got}[got == ""], want))
+				}
+			}
+		}
+		if nT < 2 {
+			r.Und("CDC-9", "RewriteAOF:edge-record-times", w.Pos(rw.Decl.Pos()), "the compaction's edge callback (GLINK and GUNLINK written from the iterator's created/ended times) was not found — shape not recognised")
+		}
 	}
 	// ... and every key-value pair is carried over: the callback that collects the pairs has no way out that skips
 	// the collection (a key filter there silently deletes user keys at the next restart)
@@ -573,6 +717,52 @@ func ruleCDC10(w *World, r *Report) {
 		var wit []ssa.Instruction
 		if sep != "" && jw != nil && len(findInstrs(fn, isSepTest)) > 0 {
 			ok, wit = mustPassGuard(fn, callsTo(jw), isSepTest, callValue, false, nil)
+		}
+		if !ok && sep != "" && jw != nil {
+			// the request's checks are a function of their own (`if err := req.validate(); err != nil { return err }`): it
+			// reports success only on the "does not contain the separator" edge of a test of a string of the request, and
+			// VCreate journals only after it has succeeded
+			for _, h := range w.extractedHelpers(fn) {
+				nres := h.Signature.Results().Len()
+				if nres == 0 || !isErrorType(h.Signature.Results().At(nres-1).Type()) {
+					continue
+				}
+				isSep := func(in ssa.Instruction) bool {
+					c, ok := in.(*ssa.Call)
+					if !ok || !commonIs(&c.Call, "strings", "Contains") || len(c.Call.Args) != 2 {
+						return false
+					}
+					cs, ok := constString(c.Call.Args[1])
+					return ok && cs == sep
+				}
+				if len(findInstrs(h, isSep)) == 0 {
+					continue
+				}
+				okRet := func(in ssa.Instruction) bool {
+					rt, isRet := in.(*ssa.Return)
+					return isRet && !definitelyError(retVal(rt, nres-1))
+				}
+				failed := map[edgeKey]bool{} // (a return over the failure edge of another check is a refusal, not a success)
+				for _, oc := range findInstrs(h, func(x ssa.Instruction) bool { _, isC := x.(*ssa.Call); return isC }) {
+					for e := range failureEdges(h, oc.(*ssa.Call)) {
+						failed[e] = true
+					}
+				}
+				inner, w1 := mustPassGuard(h, okRet, isSep, callValue, false, failed)
+				hh := h
+				outer, w2 := precedesWithSuccess(fn, func(in ssa.Instruction) bool {
+					c, isCall := in.(*ssa.Call)
+					return isCall && c.Call.StaticCallee() == hh
+				}, callsTo(jw))
+				if os.Getenv("KVLINT_DEBUG") != "" {
+					fmt.Fprintln(os.Stderr, "DEBUG CDC-10 helper", h.Name(), inner, outer)
+				}
+				if inner && outer {
+					ok, wit = true, nil
+				} else {
+					wit = append(w1, w2...)
+				}
+			}
 		}
 		r.Cond(ok, "CDC-10", "Engine.VCreate:name-without-separator", w.Pos(vc.Decl.Pos()), "an index is journaled and created only if its name does not contain the graph id separator "+fmt.Sprintf("%q", sep), "Engine.VCreate accepts an index name that contains the graph id separator: the graph ids of that index cannot be taken apart again (edges of \"team::docs\" read back as \"docs::<id>\") and collide with those of the index named by the prefix", w.witness(wit)...)
 	}
